@@ -136,10 +136,19 @@ pub(crate) fn c01_wrap_from_filter_contract() {
     let answer: bool = kani::any();
     let fl: bool = kani::any();
     let props = [("k", v)];
-    let want = Seen { k: Some(v), amb: None, start: None, end: None, is_range: false, mdl_is_m: true };
+    // the event's own extent: none, a point, or a range (forwards, empty or backwards) - filter and destination must see the same one
+    let kind: u8 = kani::any();
+    kani::assume(kind <= 2);
+    let (a, b) = (any_ts(), any_ts());
+    let (ext, start, end, is_range) = match kind {
+        0 => (None, None, None, false),
+        1 => (Some(emit::Extent::point(a)), None, Some(a), false),
+        _ => (Some(emit::Extent::range(a..b)), Some(a), Some(b), true),
+    };
+    let want = Seen { k: Some(v), amb: None, start, end, is_range, mdl_is_m: true };
     let f = OracleFilter::new(answer);
     let e = OracleEmitter::with_flush(fl).wrap_emitter(emit::emitter::wrapping::from_filter(&f));
-    e.emit(evt(&props));
+    e.emit(Event::new(Path::new_raw("m"), Template::literal("t"), ext, &props));
     assert!(f.calls.get() == 1 && f.seen.get() == want);
     assert!(e.emitter().calls.get() == if answer { 1 } else { 0 });
     if answer {
